@@ -210,9 +210,20 @@ func (s HSpec) build() (*sam.Header, error) {
 
 var valGen = rapid.StringMatching(`[!-~]([ -~]{0,10}[!-~])?`)
 
+// endGen draws values that may end in blanks (legal in header values, [ -~]+);
+// used for fields that can be the last one on their line
+var endGen = rapid.StringMatching(`[!-~]([ -~]{0,10}[!-~])? {0,2}`)
+
 func optVal(t *rapid.T, label string) string {
 	if rapid.IntRange(0, 2).Draw(t, label+"?") == 0 {
 		return valGen.Draw(t, label)
+	}
+	return ""
+}
+
+func optEnd(t *rapid.T, label string) string {
+	if rapid.IntRange(0, 2).Draw(t, label+"?") == 0 {
+		return endGen.Draw(t, label)
 	}
 	return ""
 }
@@ -291,11 +302,11 @@ func HSpecGen(minRefs, maxRefs int) *rapid.Generator[HSpec] {
 		}
 		pgIDs := rapid.SliceOfNDistinct(NameGen, 0, 4, func(s string) string { return s }).Draw(t, "pgids")
 		for _, id := range pgIDs {
-			p := PGSpec{ID: id, PN: optVal(t, "pn"), CL: optVal(t, "cl"), PP: optVal(t, "pp"), VN: optVal(t, "vn")}
+			p := PGSpec{ID: id, PN: optVal(t, "pn"), CL: optEnd(t, "cl"), PP: optVal(t, "pp"), VN: optVal(t, "vn")}
 			p.Tags = userTags(t, "pgtags", 2)
 			s.Progs = append(s.Progs, p)
 		}
-		s.Comments = rapid.SliceOfN(valGen, 0, 3).Draw(t, "comments")
+		s.Comments = rapid.SliceOfN(endGen, 0, 3).Draw(t, "comments")
 		s.Via = rapid.SampledFrom([]int{0, 0, 0, 1, 1, 2, 3, 4}).Draw(t, "via")
 		if rapid.IntRange(0, 24).Draw(t, "longline") == 0 {
 			s.LongComment = rapid.SampledFrom([]int{4090, 65530, 65536, 70000}).Draw(t, "longcomment")
